@@ -60,10 +60,12 @@ def _used(rxns):
 def _law_param(rec, form, gv):
     """the `param` of a reaction for one way of giving its constants: form "inline" (quantities inside the
     expression) or "keys" (unique keys only; the values come as parameters or substitutions)"""
-    from chempy.kinetics.rates import MassAction, Arrhenius, Eyring
+    from chempy.kinetics.rates import MassAction, Arrhenius, Eyring, Radiolytic
     law = rec.get("law", "mass")
     if law == "mass":
         return _q(rec["k"], gv) if form == "inline" else rec["name"]
+    if law == "radiolytic":
+        return Radiolytic([_q(rec["k"], gv)]) if form == "inline" else Radiolytic.fk(rec["name"])
     cls = {"arrhenius": Arrhenius, "eyring": Eyring}[law]
     if form == "inline":
         return MassAction(cls([_q(rec["k"], gv), _q(rec["ea"], gv)]))
@@ -73,7 +75,7 @@ def _law_param(rec, form, gv):
 def _values(rec, gv):
     """name -> quantity for the constants of one reaction"""
     out = {rec["name"]: _q(rec["k"], gv)}
-    if rec.get("law", "mass") != "mass":
+    if rec.get("law", "mass") in ("arrhenius", "eyring"):
         out[rec["ename"]] = _q(rec["ea"], gv)
     return out
 
@@ -95,16 +97,23 @@ def _eval_rates(rsys, reg, mode, conc, t0, params, oc=None, ot=None, subs=None):
     from chempy.kinetics.ode import get_odesys
     kw = {}
     if oc is not None:
-        kw = dict(output_conc_unit=oc, output_time_unit=ot)
+        kw["output_conc_unit"] = oc
+    if ot is not None:
+        kw["output_time_unit"] = ot
     if subs:
         kw["substitutions"] = subs
     odesys, extra = get_odesys(rsys, include_params=(mode in ("inline", "subs")), unit_registry=reg, **kw)
     x, y, p = odesys.to_arrays(t0, conc, params)
     _x, _y, _p = odesys.pre_process(x, y, p)
     import numpy as np
-    f = odesys.f_cb(np.atleast_1d(_x)[0], _y, _p)
+    xe = np.atleast_1d(_x)[-1]          # the evaluation time (to_arrays turns a single time into [0, t])
+    f = odesys.f_cb(xe, _y, _p)
     names = list(odesys.names)
-    obs = {"cin": {n: float(v) for n, v in zip(names, uc.floats(y))},
+    try:
+        rr = uc.floats(extra["rate_exprs_cb"](xe, _y, _p))
+    except Exception as ex:  # noqa
+        rr = {"error": type(ex).__name__, "msg": str(ex)[:120]}
+    obs = {"tev": float(xe), "rrates": rr, "cin": {n: float(v) for n, v in zip(names, uc.floats(y))},
            "f": {n: float(v) for n, v in zip(names, uc.floats(f))},
            "param_names": list(odesys.param_names),
            "kin": {n: float(v) for n, v in zip(odesys.param_names, uc.floats(p))},
@@ -182,6 +191,26 @@ def _call_solver(solver, op, call, sysrecs, gv):
             "x1_si": float(uc.project_unitful(res.xout)["si"][-1]), "success": bool(res.info.get("success", True))}
 
 
+def _accept(a, gv, cls):
+    """is the constant accepted?  how = init: by the constructor; method: by check_consistent_units() of an object
+    made with the checks switched off; nochecks: is the object made at all when the checks are switched off"""
+    import quantities as pq
+    k = _q({"mag": a["mag"], "ux": a["kux"]}, gv)
+    if a.get("kform", "quantity") == "uncertain":
+        k = pq.UncertainQuantity(float(k.magnitude), k.units, 0.05 * float(k.magnitude))
+    how = a.get("how", "init")
+    if how == "init":
+        o = uc.observe(cls, _stoich(a["rx"]["reac"]), _stoich(a["rx"]["prod"]), param=k)
+        return {"accepted": "raised" not in o, "exc": o.get("raised")}
+    o = uc.observe(cls, _stoich(a["rx"]["reac"]), _stoich(a["rx"]["prod"]), param=k, checks=())
+    if how == "nochecks":
+        return {"accepted": None, "built": "raised" not in o, "exc": o.get("raised")}
+    if "raised" in o:
+        return {"accepted": None, "built": False, "exc": o["raised"]}
+    o2 = uc.observe(o["v"].check_consistent_units)
+    return {"accepted": (bool(o2["v"]) if "v" in o2 else False), "built": True, "exc": o2.get("raised")}
+
+
 def run_case(case):
     """-> list of observations, one per op (an exception where a value is expected is the observation)"""
     from chempy import Reaction, ReactionSystem, Equilibrium
@@ -192,12 +221,8 @@ def run_case(case):
     for a in cin["ops"]:
         op = a["op"]
         try:
-            if op == "rate_accept":
-                ok, exc = _try_reaction(a["rx"], _q({"mag": a["mag"], "ux": a["kux"]}, gv))
-                out.append({"accepted": ok, "exc": exc})
-            elif op == "k_accept":
-                ok, exc = _try_reaction(a["rx"], _q({"mag": a["mag"], "ux": a["kux"]}, gv), cls=Equilibrium)
-                out.append({"accepted": ok, "exc": exc})
+            if op in ("rate_accept", "k_accept"):
+                out.append(_accept(a, gv, Equilibrium if op == "k_accept" else Reaction))
             elif op == "build":
                 acc = [_try_reaction(r["rx"], _law_param(r, "inline", gv))[0] for r in cin["sys"]]
                 out.append({"accept": acc})
@@ -211,17 +236,34 @@ def run_case(case):
                     else:
                         rxns.append(Reaction(_stoich(r["rx"]["reac"]), _stoich(r["rx"]["prod"]), param=_law_param(r, "keys", gv)))
                         (subs if mode == "subs" else params).update(_values(r, gv))
-                if any(r.get("law", "mass") != "mass" for r in recs):
-                    params["temperature"] = _q(a["temp"], gv)
+                env = a["env"]
+                if any(r.get("law", "mass") in ("arrhenius", "eyring") for r in recs):
+                    if env["tsrc"] == "param":
+                        params["temperature"] = _q(a["temp"], gv)
+                    elif env["tsrc"] == "subs":
+                        subs["temperature"] = _q(a["temp"], gv)
+                    else:
+                        from chempy.kinetics.rates import RampedTemp
+                        subs["temperature"] = RampedTemp([_q(env["T0"], gv), _q(env["dTdt"], gv)])
+                if any(r.get("law", "mass") == "radiolytic" for r in recs):
+                    params["density"] = _q(env["density"], gv)
+                    params["doserate"] = _q(env["doserate"], gv)
                 used = _used(cin["sys"])
                 rsys = ReactionSystem(rxns, " ".join(used))
                 reg = uc.registry(a["reg"])
                 conc = {s: _q(cin["cond"]["conc"][s], gv) for s in used}
                 t0, t1 = _q(cin["cond"]["t0"], gv), _q(cin["cond"]["t1"], gv)
                 nxt = [b for b in cin["ops"] if b["op"] == "output"]
-                oc = uc.unit_expr(nxt[0]["oc"]) if nxt else None
+                oc = uc.unit_expr(nxt[0]["oc"]) if nxt else None      # None (empty expression) = keyword left out
                 ot = uc.unit_expr(nxt[0]["ot"]) if nxt else None
-                odesys, extra, obs = _eval_rates(rsys, reg, mode, conc, t0, params, oc, ot, subs)
+                odesys, extra, obs = _eval_rates(rsys, reg, mode, conc, t1, params, oc, ot, subs)
+                if mode == "inline" and env["tsrc"] != "ramp":
+                    # the same rates straight from the reaction system, fed with quantities
+                    try:
+                        d = rsys.rates(dict(conc, **params, **{k: v for k, v in subs.items()}))
+                        obs["direct"] = {k: uc.project_unitful(v) for k, v in d.items()}
+                    except Exception as ex:  # noqa
+                        obs["direct"] = {"error": type(ex).__name__, "msg": str(ex)[:160]}
                 state.update(odesys=odesys, conc=conc, t0=t0, t1=t1, params=params, reg=reg, rxns=rxns)
                 if mode == "named" and case.get("alt") and all(r.get("law", "mass") == "mass" for r in recs):
                     try:   # the alternative builder works on its own copies of the quantities
@@ -266,6 +308,18 @@ def judge(case, i, a, obs, e, gv):
     if "error" in obs:
         return "unexpected-" + obs["error"], {"rates": "get_odesys", "output": "odesys.integrate"}.get(a["op"], a["op"])
     op = a["op"]
+    if op in ("rate_accept", "k_accept") and a.get("how", "init") != "init":
+        fn = "Reaction" if op == "rate_accept" else "Equilibrium"
+        if not obs["built"]:
+            return "refused-with-checks-off", fn
+        if a["how"] == "nochecks":
+            return None
+        fn += ".check_consistent_units"
+        if op == "rate_accept" and obs["accepted"] != e["accept"]:
+            return ("refused-right-dimension" if e["accept"] else "accepted-wrong-dimension"), fn
+        if op == "k_accept" and e["must_raise"] and obs["accepted"]:
+            return "accepted-wrong-dimension", fn
+        return None
     if op == "rate_accept":
         if obs["accepted"] != e["accept"]:
             return ("refused-right-dimension" if e["accept"] else "accepted-wrong-dimension"), "Reaction"
@@ -290,7 +344,7 @@ def judge(case, i, a, obs, e, gv):
             if not _is_named(j, a["mode"]):
                 continue
             want = [(r["name"], e["kin"][j - 1], e["p_units"][j - 1])]
-            if r.get("law", "mass") != "mass":
+            if r.get("law", "mass") in ("arrhenius", "eyring"):
                 want.append((r["ename"], e["ein"][j - 1], e["t_unit"]))
             for n, val, unit in want:
                 if n not in obs["kin"] or not uc.close(obs["kin"][n], uc.num(val, gv), ctol):
@@ -300,13 +354,39 @@ def judge(case, i, a, obs, e, gv):
                     return "p_units-dimension", "get_odesys"
                 if not uc.close(pu["si"], uc.scale_num(unit["scale"], gv), ctol):
                     return "p_units-size", "get_odesys"
-        if "temperature" in obs["kin"]:
-            if not uc.close(obs["kin"]["temperature"], uc.num(e["tin"], gv), ctol):
-                return "to_arrays-parameter", "get_odesys"
+        for n, val, unit in (("temperature", e["tin"], e["t_unit"]), ("density", e["din"], e["d_unit"]), ("doserate", e["rin"], e["r_unit"])):
+            if n in obs["kin"]:
+                if not uc.close(obs["kin"][n], uc.num(val, gv), ctol):
+                    return "to_arrays-parameter", "get_odesys"
+                pu = obs["p_units"].get(n)
+                if pu is None or pu["dim"] != unit["dim"]:
+                    return "p_units-dimension", "get_odesys"
+                if not uc.close(pu["si"], uc.scale_num(unit["scale"], gv), ctol):
+                    return "p_units-size", "get_odesys"
+        if not uc.close(obs["tev"], uc.num(e["tev"], gv), ctol):
+            return "to_arrays-time", "get_odesys"
+        if isinstance(obs["rrates"], dict):
+            return "unexpected-" + obs["rrates"]["error"], "rate_exprs_cb"
+        if len(obs["rrates"]) != len(e["rrates"]):
+            return "reaction-rate-count", "rate_exprs_cb"
+        for got, t in zip(obs["rrates"], e["rrates"]):
+            tot, scale = _sum_terms([t], gv)
+            if not uc.close_abs(got, tot / back, tol, scale / back):
+                return "reaction-rate", "rate_exprs_cb"
         for s in used:
             tot, scale = _sum_terms(e["rates"][s], gv)
             if not uc.close_abs(obs["f"][s], tot / back, tol, scale / back):
                 return "rate", "get_odesys"
+        direct = obs.get("direct")
+        if direct is not None:
+            if "error" in direct:
+                return "unexpected-" + direct["error"], "ReactionSystem.rates"
+            for s in used:
+                tot, scale = _sum_terms(e["rates"][s], gv)
+                if s not in direct or direct[s]["dim"] != {"length": -3, "mass": 0, "time": -1, "current": 0, "temperature": 0, "amount": 1}:
+                    return "direct-rate-dimension", "ReactionSystem.rates"
+                if not uc.close_abs(direct[s]["si"], tot, tol, scale):
+                    return "direct-rate", "ReactionSystem.rates"
         alt = obs.get("alt")
         if alt is not None:
             if "error" in alt:
@@ -353,13 +433,13 @@ def judge(case, i, a, obs, e, gv):
             return None  # integrator failure is not a unit question (counted by the caller)
         if obs["x_dim"] != e["tunit"]["dim"] or obs["y_dim"] != e["cunit"]["dim"]:
             return "output-dimension", "odesys.integrate"
-        if not uc.close(obs["x1"], uc.num(e["x1"], gv), ctol):
+        if e["tmag"] and not uc.close(obs["x1"], uc.num(e["x1"], gv), ctol):
             return "output-time-magnitude", "odesys.integrate"
         if not uc.close(obs["x1_si"], uc.num(e["x1"], gv) * uc.scale_num(e["tunit"]["scale"], gv), ctol):
             return "output-time-unit", "odesys.integrate"
         used = _used(case["in"]["sys"])
         for s in used:
-            if not uc.close(obs["y0"][s], uc.num(e["y0"][s], gv), ctol):
+            if e["cmag"] and not uc.close(obs["y0"][s], uc.num(e["y0"][s], gv), ctol):
                 return "output-conc-magnitude", "odesys.integrate"
             if not uc.close(obs["y0_si"][s], uc.num(e["y0"][s], gv) * uc.scale_num(e["cunit"]["scale"], gv), ctol):
                 return "output-conc-unit", "odesys.integrate"
@@ -417,6 +497,11 @@ def _key(case, a, clause, fn, i=None):
         key["prior"] = _prior(case, i)
     if "mode" in a:
         key["mode"] = a["mode"]
+    if "kform" in a:
+        key["kform"] = a["kform"]
+        key["how"] = a.get("how", "init")
+    if "env" in a:
+        key["tsrc"] = a["env"]["tsrc"]
     if "laws" in a:
         key["laws"] = "+".join(sorted(set(a["laws"])))
         key["named_laws"] = "+".join(sorted({l for j, l in enumerate(a["laws"], 1) if _is_named(j, a["mode"])})) or "none"
@@ -604,26 +689,40 @@ def _enc(v):
 # --------------------------------------------------------------------------- run
 def run(ctx):
     import core
-    cfgs = ["accept", "refuse", "rates_q", "laws_q", "solver_q"] if ctx.quick else \
-        ["accept", "refuse", "rates_t", "subs_t", "regs_t", "laws_q", "laws_t", "solver_t"]
+    cfgs = ["accept", "refuse", "rates_q", "laws_q", "rad_q", "solver_q"] if ctx.quick else \
+        ["accept", "refuse", "rates_t", "subs_t", "regs_t", "laws_q", "laws_t", "rad_q", "solver_t"]
+    # (-coverage costs a factor two: the action-coverage guard runs on the small configs only; the others are
+    #  guarded by require_cases and by the classes of the replayed cases)
     jobs = [dict(module="UnitKinetics_MC", cfg="UnitKinetics_MC_%s.cfg" % c, require_cases=50,
-                 require_actions={"accept": ["GenRateAccept", "GenKAccept"], "refuse": ["GenSetSystem", "Build"],
-                                  "rates_q": ["GenSetSystem", "Build", "GenSetConditions", "GenPhysicalRate", "GenOutput"],
-                                  "solver_q": ["GenMakeSolver", "GenSolve", "GenValidate", "GenFinishSolver"]}.get(c, ()))
+                 require_actions={"refuse": ["GenSetSystem", "Build"],
+                                  "rad_q": ["GenSetSystem", "Build", "GenSetConditions", "GenPhysicalRate", "GenOutput"]}.get(c, ()))
             for c in cfgs]
-    jobs.append(dict(module="Units_MC", cfg="Units_MC_catalog.cfg", require_cases=1, workers=1))
-    results = uc.tlc_many(ctx, jobs, workers=6, parallel=4)
-    meta = [c for c in results[-1].cases if c.get("cls") == "catalog"][0]["exp"]
+    import time as _time
+    _t0 = _time.time()
+    results = uc.tlc_many(ctx, jobs, workers=3 if ctx.quick else 4, parallel=8 if ctx.quick else 4)
+    ctx.notes.append("phase tlc %.1fs" % (_time.time() - _t0))
+    # the registries of the spec (for the seeded generator): those that occur in the generated cases
+    regs = {}
+    for res in results:
+        for c in res.cases:
+            for a in c["in"]["ops"]:
+                if "reg" in a:
+                    regs[core.stable_hash(a["reg"])] = a["reg"]
+    meta = {"regs": [regs[k] for k in sorted(regs)]}
+    if len(meta["regs"]) < 3:
+        raise core.MachineryFailure("vacuity: fewer than three registries in the generated cases")
 
     groups = {}
     solver_groups = {}
     fails = 0
-    for cfg, res in zip(cfgs, results[:-1]):
-        heavy = cfg.split("_")[0] in ("rates", "regs", "solver", "laws", "subs")
-        sel = ctx.pick(res.cases, ({"solver_q": 120, "laws_q": 190}.get(cfg, 380) if heavy else 1400) if ctx.quick else None)
+    for cfg, res in zip(cfgs, results):
+        heavy = cfg.split("_")[0] in ("rates", "regs", "solver", "laws", "subs", "rad")
+        sel = ctx.pick(res.cases, ({"solver_q": 60, "laws_q": 80, "rad_q": 60}.get(cfg, 110) if heavy else 1000) if ctx.quick else None)
         for k, c in enumerate(sel):
             c["alt"] = heavy and (int(core.stable_hash(c["in"]), 16) % ALT_SHARE == 0)
-        outs = ctx.pmap(replay_case, sel, chunksize=4 if heavy else None)
+        _t1 = _time.time()
+        outs = ctx.pmap(replay_case, sel, chunksize=1 if heavy else None)
+        ctx.notes.append("phase replay %s %d cases %.1fs" % (cfg, len(sel), _time.time() - _t1))
         ctx.cases_replayed += len(sel)
         for case, (bad, obs, ends) in zip(sel, outs):
             ctx.ran(case["in"])
@@ -682,11 +781,13 @@ def run(ctx):
     ctx.exhaustive = not ctx.quick
 
     # code -> spec
-    n = 500 if ctx.quick else 6000
+    n = 300 if ctx.quick else 6000
     g = Gen(ctx.rng, meta["regs"])
     hs = [g.item() for _ in range(n)]
+    _t2 = _time.time()
     outs = ctx.pmap(_run_trace, hs, chunksize=4)
     traces = [t for t, _ in outs]
+    ctx.notes.append("phase run traces %.1fs" % (_time.time() - _t2))
     verdicts = ctx.validate_traces("UnitKineticsTrace", "UnitKineticsTrace.cfg", traces, chunk=3000, env=uc.TLC_ENV)
     for h, (tr, obs), (v, pos, clause) in zip(hs, outs, verdicts):
         ctx.ran(h)
